@@ -150,7 +150,17 @@ def build_grid(c):
         lon, lat = np.array(ll[0], dtype=float), np.array(ll[1], dtype=float)
     else:
         lon, lat = np.linspace(-170, 170, n), np.linspace(-80, 80, n)
-    return ux.Grid.from_topology(lon, lat, t.copy(), fill_value=FILL)
+    g = ux.Grid.from_topology(lon, lat, t.copy(), fill_value=FILL)
+    if c.get("supplied_edges"):
+        # the source supplies its own edge table: other order, other orientation
+        import random
+        rr = random.Random(c["supplied_edges"])
+        en = [list(e) for e in g.edge_node_connectivity.values.tolist()]
+        rr.shuffle(en)
+        en = [e[::-1] if rr.random() < 0.5 else e for e in en]
+        g = ux.Grid.from_topology(lon, lat, t.copy(), fill_value=FILL,
+                                  edge_node_connectivity=np.array(en, dtype=np.intp))
+    return g
 
 
 def make_uxda(c, g, arr):
@@ -182,6 +192,10 @@ def run_valid(ck, c, g, arr, elems, collect):
     d = c["data"]
     uxda = make_uxda(c, g, arr)
     lead_dims = tuple(d["dims"][:-1])
+    npf0 = np.asarray(g.n_nodes_per_face.values).copy()
+    fnc0 = np.asarray(g.face_node_connectivity.values).copy()
+    enc0 = np.asarray(g.edge_node_connectivity.values).copy()
+    arr0 = arr.copy()
     for dest in c.get("dests", ("face", "edge")):
         n_elem = len(elems[dest])
         for agg in c.get("aggs", AGGS):
@@ -189,6 +203,11 @@ def run_valid(ck, c, g, arr, elems, collect):
             cc = dict(c, agg=agg, dest=dest)
             try:
                 r = call(uxda, agg, dest)
+                if not (np.array_equal(g.n_nodes_per_face.values, npf0) and np.array_equal(g.face_node_connectivity.values, fnc0)
+                        and np.array_equal(g.edge_node_connectivity.values, enc0)
+                        and np.array_equal(np.asarray(uxda.values), arr0, equal_nan=arr0.dtype.kind == "f")
+                        and npf0.tolist() == [sum(1 for x in row if x != FILL) for row in c["table"]]):
+                    ck.fail("frame", cc, info, detail="the aggregation changed n_nodes_per_face / a connectivity table / the input data")
             except Exception as ex:
                 ck.fail("raises", cc, info, detail=repr(ex))
                 continue
@@ -208,6 +227,7 @@ def run_valid(ck, c, g, arr, elems, collect):
             if bad:
                 ck.fail("value", cc, info, detail=bad)
             collect[(dest, agg)] = vals
+            collect[("dtype", dest, agg)] = str(r.dtype)
 
 
 def run_notlast(ck, c, g, arr, elems, collect):
@@ -517,6 +537,8 @@ def gen_cases(ck):
         c = {"kind": kind, "table": t, "n_node": n, "lonlat": ll, "data": gen_data(rng, n), "mode": "valid"}
         if rng.random() < 0.06:
             c["data"]["dask"] = True
+        if rng.random() < 0.15 and c["data"]["cls"] in ("dyadic", "int", "int32", "bool"):
+            c["supplied_edges"] = rng.randrange(1, 10 ** 6)
         cases.append(c)
         if rng.random() < 0.3:             # histories across derived grids
             dd = gen_data(rng, n, cls=rng.choice(["dyadic", "dyadic", "int", "gauss", "bool"]), lead=rng.choice([(), (2,), (2, 2)]))
@@ -643,7 +665,7 @@ def main(ck):
                        "dtype": c["data"]["dtype"], "shape": c["data"]["shape"],
                        "mean_face_impl": np.asarray(col.get(("face", "mean"), [])).ravel()[:5].tolist()})
     # ---- model correspondence ---------------------------------------------------------------
-    n_corr = 0
+    n_corr = n_dtype = n_rev = n_et = 0
     if ok:
         face_lines, edge_lines, part_lines, disp_lines, owners = [], [], [], [], []
         disp_owner = []
@@ -746,6 +768,56 @@ def main(ck):
                             ck.corr_failures.append({"case": c["table"], "data": c["data"], "agg": agg, "dest": "edge", "what": bad})
                         n_corr += 1
             pos += cnt
+        # dtype promotion table of the model vs the dtype the implementation returns (both destinations)
+        DT = {"bool": 0, "int32": 1, "int": 2, "float32": 3, "float": 4}
+        DTN = {"bool": 0, "int32": 1, "int64": 2, "float32": 3, "float64": 4}
+        table = ck.run_model("c17dtype", ["(%d %d)" % (a, dcode) for a in range(len(AGGS)) for dcode in range(5)])
+        table = {(a, dcode): int(table[a * 5 + dcode]) for a in range(len(AGGS)) for dcode in range(5)}
+        for ci, cnt in owners:
+            c, res = cases[ci], results[ci]
+            for k, agg in enumerate(AGGS):
+                for dest in ("face", "edge"):
+                    got = res["collect"].get(("dtype", dest, agg))
+                    if got is None:
+                        continue
+                    n_dtype += 1
+                    if DTN.get(got) != table[(k, DT[c["data"]["dtype"]])]:
+                        ck.corr_failures.append({"case": c["table"], "what": "result dtype", "agg": agg, "dest": dest,
+                                                 "source": c["data"]["dtype"], "impl": got, "model_code": table[(k, DT[c["data"]["dtype"]])]})
+        # processing order of the partitions: the model's loop body on the REVERSED gathers gives the same arrays
+        rev_lines, rev_ref = [], []
+        pos = 0
+        for oi, (ci, cnt) in enumerate(owners):
+            if oi % 6 == 0:
+                for k in (0, 4, 7):
+                    rev_lines.append(face_lines[pos + k])
+                    rev_ref.append(mf[pos + k])
+            pos += cnt
+        if rev_lines:
+            for a, b in zip(ck.run_model("c17facerev", rev_lines), rev_ref):
+                n_rev += 1
+                if a != b:
+                    ck.corr_failures.append({"what": "model: reversed processing order changes the result", "rev": str(a)[:200], "fwd": str(b)[:200]})
+        # source-supplied edge tables (own order and orientation): c17_edge_row on exactly that table, edge by edge
+        et_lines, et_owner = [], []
+        for ci, cnt in owners:
+            c, res = cases[ci], results[ci]
+            if c.get("supplied_edges"):
+                arr = make_array(c["data"])
+                for k in (1, 4):
+                    et_lines.append("(%d %s %s)" % (k, sx([list(e) for e in res["edges"]]), data_sx(arr)))
+                    et_owner.append((ci, AGGS[k]))
+        if et_lines:
+            for (ci, agg), mrows in zip(et_owner, ck.run_model("c17edgetable", et_lines)):
+                c, res = cases[ci], results[ci]
+                iv = res["collect"].get(("edge", agg))
+                if iv is None:
+                    continue
+                n_et += 1
+                G = np.asarray(iv).reshape(-1, len(res["edges"]))
+                M = [[frac_of_q(q) for q in row] for row in mrows]
+                if len(M) != G.shape[0] or any(Fraction(G[l][e].item()) != M[l][e] for l in range(len(M)) for e in range(len(M[l]))):
+                    ck.corr_failures.append({"case": c["table"], "what": "supplied edge table: model and implementation differ", "agg": agg})
         # dispatch / dims bookkeeping (incl. the node-dimension-not-last layout: the faithful model predicts the
         # mislabelled result whenever NumPy's indexing of the last axis does not raise)
         for (ci, key, mode), mo in zip(disp_owner, md):
@@ -808,12 +880,14 @@ def main(ck):
         "case_kinds": hist, "case_modes": mode_hist, "face_size_histogram": {str(k): v for k, v in sorted(sizes.items())},
         "data_classes": dt_hist, "data_rank_histogram": {str(k): v for k, v in sorted(rank_hist.items())},
         "aggregations": AGGS, "destinations": ["face", "edge"], "derived_grid_histories": dict(sorted(DERIVED_STATS.items())),
-        "model_vs_impl_comparisons": n_corr, "extraction_audit_cases": audit_n,
+        "model_vs_impl_comparisons": n_corr, "dtype_table_comparisons": n_dtype, "reversed_order_model_runs": n_rev,
+        "supplied_edge_table_comparisons": n_et, "extraction_audit_cases": audit_n,
         "tolerances": {"exact": "min, max, all, any; median of an odd count (float data, int data below 2^53); sum/prod of int/bool data below 2^53",
                        "otherwise": "|impl - exact| <= 1e-12 * scale (float32 data: 2e-5), scale = max|x| of the "
                                     "leading row (sum: n*max|x|, var: max|x|^2, prod: |exact|); NaN/inf data: NumPy "
                                     "applied per element, NaN/inf pattern equal, finite values rel 1e-12"},
-        "clauses_checked_on_impl": ["raises", "type", "grid", "dims", "shape", "value", "error_path"],
+        "clauses_checked_on_impl": ["raises", "type", "grid", "dims", "shape", "value", "error_path",
+                                    "frame (n_nodes_per_face, face_node, edge_node and the input data unchanged after every call)"],
         "partial": "the reductions themselves are NumPy's (parameter of the theorems); std is compared as sqrt of the "
                    "exact variance; float rounding inside the tolerance above; dtype of the result is not part of the "
                    "property (since fix 997ba86d both destinations return the dtype the reduction produces)"})
